@@ -12,7 +12,7 @@ static const Alphabet alphabets[] = {
 	{ "S0k", 1, 2, 0, 2, 3, { "-1", "0", "1" }, 3, { "-1", "0", "2" }, 3, { "L", "G", "E" },
 		4, { "0:inf", "-inf:inf", "0:1", "-inf:0" }, 3, { "-1", "0", "1" }, 1 },
 	{ "S0q1", 1, 2, 0, 1, 3, { "-1", "0", "1" }, 2, { "0", "1" }, 3, { "L", "G", "E" },
-		3, { "0:inf", "-inf:inf", "0:1" }, 3, { "-1", "0", "1" }, 1 },
+		4, { "0:inf", "-inf:inf", "0:1", "-inf:1" }, 3, { "-1", "0", "1" }, 1 },
 	{ "S1q", 1, 2, 1, 1, 3, { "-1", "0", "1" }, 2, { "0", "1" }, 3, { "L", "E", "R1" },
 		4, { "0:inf", "-inf:inf", "1:1", "-1:2" }, 2, { "-1", "1" }, 1 },
 	{ "SN1", 1, 2, 1, 1, 7, { "0", "1", "-1", "1/3", "9007199254740993", "@tiny3", E30 }, 3, { "0", "1/3", "9007199254740993" }, 3, { "L", "E", "R1/3" },
@@ -169,7 +169,8 @@ static const int KJ[7] = { 10, 30, 52, 53, 60, 80, 200 };
 #define T_DEGEN (4 * 4 * 2)
 #define T_MISC 24
 #define T_SCALE (41 * 2 * 2)
-long tfam_count (void) { return T_NEAR + T_KM + T_BEALE + T_DEGEN + T_MISC + T_SCALE; }
+#define T_NEQ (7 * 3 * 3 * 3)
+long tfam_count (void) { return T_NEAR + T_KM + T_BEALE + T_DEGEN + T_MISC + T_SCALE + T_NEQ; }
 RefLP *tfam_decode (long idx, char *label, size_t ll)
 {
 	RefLP *L = NULL;
@@ -232,6 +233,20 @@ RefLP *tfam_decode (long idx, char *label, size_t ll)
 		default: addrow (L, 'L', "2", NULL, c11); addrow (L, 'L', "2", NULL, c11); addrow (L, 'E', "1", NULL, c10); break; /* duplicate rows */
 		}
 		snprintf (label, ll, "misc variant=%d", v);
+	} else if (idx - T_MISC >= T_SCALE) {
+		/* two nearly dependent equalities / ranged rows:  x + y (=|in) 1 ;  4x + 4y (=|in) 4 + delta, delta in {0, +2^-j, -2^-j}:
+		 * consistent only for delta = 0 (or inside the range), inconsistent by a margin far below double precision otherwise */
+		idx -= T_MISC + T_SCALE;
+		int o = (int) (idx % 3), kind = (int) ((idx / 3) % 3), sg = (int) ((idx / 9) % 3), j = KJ[idx / 27];
+		static const char *objs[3][2] = { { "1", "2" }, { "-1", "0" }, { "0", "0" } };
+		static const char *c11[2] = { "1", "1" }, *c44[2] = { "4", "4" };
+		L = mk (REF_MIN, 2, objs[o], NULL);
+		if (kind == 1) addrow (L, 'R', "1", "0", c11); else addrow (L, 'E', "1", NULL, c11);
+		q_pow2 (d, -j);
+		if (kind == 2) { addrow (L, 'R', "4", "0", c44); mpq_set (L->range[1], d); }
+		else addrow (L, 'E', "4", NULL, c44);
+		if (sg == 1) mpq_add (L->rhs[1], L->rhs[1], d); else if (sg == 2) mpq_sub (L->rhs[1], L->rhs[1], d);
+		snprintf (label, ll, "near-dependent equalities j=%d sign=%d kind=%d obj=%d", j, sg, kind, o);
 	} else {
 		idx -= T_MISC;
 		int k = (int) (idx % 41), neg = (int) ((idx / 41) % 2), mx = (int) (idx / 82);
